@@ -39,3 +39,9 @@ Theorem C20_predecode_disagrees_on_duplicated_attribute_refuted :
   option_map r_id (match unmarshal_response (dedupe f9_raw) with Ok r => Some r | Err _ => None end) = Some "s"%string.
 Proof. exact predecode_disagrees_on_duplicated_attribute. Qed.
 Print Assumptions C20_predecode_disagrees_on_duplicated_attribute_refuted.
+
+(* ---- the pre-decoder and the full decoder read the same, normative, binding table ---- *)
+From V Require Import SchemaDefs Generated SamlSchema P_SamlSchema.
+Theorem C20_decode_schema_is_saml_core : xml_schema = saml_core_schema.
+Proof. exact schema_is_saml_core. Qed.
+Print Assumptions C20_decode_schema_is_saml_core.
